@@ -38,7 +38,7 @@ if not ok:
     sys.exit(1)
 ev = subprocess.run(['/verif/tools_seed_eval.sh', diff] + checks, capture_output=True, text=True)
 print(ev.stdout)
-caught = [c for c in checks if ('== %s rc=1' % c) in ev.stdout]
+caught = [c for c in checks if ('== %s rc=1' % c) in ev.stdout and ('== %s rc=1 0 violation' % c) not in ev.stdout]
 out = '/verif/seeded/%s-%s%s' % (prop, cid[3:], k)
 os.makedirs(out, exist_ok=True)
 shutil.copy(diff, os.path.join(out, 'patch.diff'))
